@@ -30,11 +30,22 @@ def start_monitor():
     import threading
     import time
 
+    real_sleep = seams._real_sleep
+
     def watch():
+        # This thread is the one thing in the process that runs on real time. It must never be the last holder of anything that
+        # belongs to a run: a Sched (and through the blocked threads' predicates the run's sockets, proxies and daemons) released
+        # HERE would be finalised at a real-time-dependent moment inside a later run, with that run's seams installed (a stream
+        # iterator's or a daemon's __del__ then talks to the NEW run's daemon at the same address). Hence: the real sleep is
+        # called directly (time.sleep is, during a run, a tripwire closure over that run's scheduler, and its frame would keep the
+        # scheduler alive for the whole second), and no local outlives an iteration. Sched.dispose() at the end of a run makes
+        # the remaining microsecond window harmless.
         seen = (None, None, None)
         since = time.time()
+        sc = cur = None
         while True:
-            time.sleep(1.0)
+            sc = cur = None
+            real_sleep(1.0)
             sc = CURRENT["sched"]
             if sc is None or sc.killing:
                 seen = (None, None, None)
@@ -248,6 +259,7 @@ class World:
                                                "wall seconds without reaching a yield point (spinning in %s)" % (t.name, BUSY_AFTER_S, t.died[2])})
             leaked = sched.kill_all()
             seams.uninstall()
+            sched.dispose()
             if log_was is not None:
                 import logging as _lg
                 plog = _lg.getLogger("Pyro5")
